@@ -264,8 +264,12 @@ pub fn run(cfg: &Cfg) -> Outcome {
     for i in [0usize, items.len() / 3, items.len() / 2, items.len() - 1] {
         acc.sample(json!({"expr": items[i].text, "instants": instant_alphabet().len()}));
     }
+    let skipped = acc.get("long_windows_skipped_after_budget") + acc.get("long_horizon_instants_skipped_after_budget");
     let mut o = Outcome::new("model_checking", acc);
     o.exhaustive = true;
+    if skipped > 0 {
+        o.caps_hit.push(format!("{skipped} long windows / long-horizon queries were skipped after the per-expression schedule_at budget (windows of at most 3 days inside the supported range are never skipped)"));
+    }
     o.cov("family_size", json!(items.len()));
     o.cov("instant_alphabet", json!(instant_alphabet().iter().map(|t| fmt_dt(*t)).collect::<Vec<_>>()));
     o.cov("rule", json!("exhaustive over the boundary family × the 23-instant alphabet: schedule_at outside the range is closed; state/next_change at every instant against P over all 2 958 466 days (closed outside, never ≥ 10000-01-01, from before 1900 the first non-closed instant); every ordered pair of instants as an iter_range window (529 per expression-context) and iter_from from every instant: every interval inside [from, min(to, 10000-01-01)] and the first 60 intervals equal to P. states = (expr, ctx, instant), transitions = windows explored; non-trivial = P has more than one run"));
